@@ -177,8 +177,12 @@ def run_case(spec):
         cfgs = [('base', {})]
         if name in ('ITML', 'LSML', 'SDML', 'ITML_Supervised', 'LSML_Supervised', 'SDML_Supervised'):
             cfgs.append(('prior=covariance', {'prior': 'covariance'}))
+        if name in ('ITML', 'LSML', 'SDML'):
+            cfgs.append(('prior=array', {'prior': data.spd(d)}))          # one array object handed to every fit of the family
         if name in ('MMC', 'MMC_Supervised'):
             cfgs.append(('init=covariance', {'init': 'covariance'}))
+        if name == 'MMC':
+            cfgs.append(('init=array', {'init': data.spd(d)}))
         if name in ('LMNN', 'NCA', 'MLKR'):
             cfgs += [('init=pca', {'init': 'pca', 'n_components': 2, 'random_state': 0}), ('init=identity', {'init': 'identity'})]
         if name == 'RCA':
